@@ -43,6 +43,8 @@ def jobs(tier):
             js.append(("job_arb_int", dict(_name="arbitrary_element %s seedlen=%d" % (g, n), gname=g, n=n)))
     for n in ([0, 1, 9, 65, 130] if tier == "quick" else [0, 1, 2, 9, 63, 64, 65, 128, 129, 200]):
         js.append(("job_arb_ed", dict(_name="arbitrary_element Ed25519 seedlen=%d" % n, n=n, incs=3 if tier == "quick" else 6)))
+    # the retry loop itself, deep: every path with up to `incs` skipped candidates
+    js.append(("job_arb_ed", dict(_name="arbitrary_element Ed25519 seedlen=2, deep retry loop", n=2, incs=24 if tier == "quick" else 48)))
     js.append(("job_constants", dict(_name="released M/N/S constants (ground)")))
     return js
 
@@ -127,7 +129,7 @@ def job_arb_int(J, gname, n):
         hval = SymBytes.of(c["out"]).value() % p
         if r.kind == "exc":
             J.claim(r, "%s only when HKDF(seed) = 0 mod p" % type(r.value).__name__,
-                    z3.And(isinstance(r.value, AssertionError), hval == 0), cex=cex, oracle="arb_int")
+                    hval == 0, cex=cex, oracle="arb_int")
             continue
         J.claim(r, "HKDF-SHA256, length element_size=%d, salt '', info 'SPAKE2 arbitrary element'" % W,
                 c["algorithm"] == "SHA256" and c["length"] == W and c["salt"] in (b"", None) and c["info"] == b"SPAKE2 arbitrary element",
@@ -304,17 +306,24 @@ def oracle_constants():
     return (False, "ok")
 
 
+# seeds for which the published construction skips many candidates before the first usable point (found by searching
+# b"seed-%d" with checks/refimpl.py; the number of skipped candidates is re-computed by the oracle, not trusted)
+DEEP_SEEDS = {7: b"seed-478", 8: b"seed-872", 9: b"seed-206", 10: b"seed-580", 11: b"seed-1595", 12: b"seed-389", 13: b"seed-41046",
+              14: b"seed-21268", 15: b"seed-67643", 16: b"seed-33007", 17: b"seed-43883", 18: b"seed-244296", 19: b"seed-685725"}
+
+
 def oracle_arb_ed(seed):
     from spake2 import ed25519_basic as E
     from checks import refimpl as R
-    for s_ in [seed, b"", b"M", b"N", b"symmetric", b"A", b"B", seed + b"\x00", bytes(65), b"\xff" * 7]:
+    deep = [s_ for k, s_ in sorted(DEEP_SEEDS.items()) if R.ed_arbitrary_increments(s_) == k]
+    for s_ in [seed, b"", b"M", b"N", b"symmetric", b"A", b"B", seed + b"\x00", bytes(65), b"\xff" * 7] + deep:
         try:
             e = E.arbitrary_element(s_)
         except Exception as ex:
             return (True, "arbitrary_element(%r) raised %r" % (s_, ex))
         want = R.ed_arbitrary_element(s_)
-        if e.to_bytes() != R.ed_enc(want) or not isinstance(e, E.Element):
-            return (True, "Ed25519 arbitrary_element(%r) differs from the published construction" % (s_,))
+        if not isinstance(e, E.Element) or e.to_bytes() != R.ed_enc(want):
+            return (True, "Ed25519 arbitrary_element(%r) differs from the published construction (%d candidates skipped)" % (s_, R.ed_arbitrary_increments(s_)))
         if want == R.ED_ZERO or not R.ed_in_subgroup(want):
             return (True, "Ed25519 arbitrary_element(%r) is not a non-identity subgroup member" % (s_,))
     return (False, "ok")
